@@ -468,6 +468,10 @@ def simplify(t):
             if base[0] == 'tuple' and str(t[2]).isdigit() and int(t[2]) < len(base[1]):
                 return base[1][int(t[2])]
             if base[0] == 'adt' and isinstance(t[2], str):
+                # a named field of a struct literal: its position comes from the field projections seen in the crate
+                idx_ = FIELD_INDEX.get((str(base[1]).split('::')[-1], t[2]))
+                if idx_ is not None and idx_ < len(base[3]):
+                    return base[3][idx_]
                 return T('field', base, t[2])
     if t[0] == 'ref' and isinstance(t[1], tuple) and t[1] and t[1][0] == 'ref':
         return t[1]
@@ -475,6 +479,24 @@ def simplify(t):
 
 
 _INLINE_CACHE = {}
+FIELD_INDEX = {}
+
+
+def _load_field_index(F):
+    if getattr(F, '_field_index_loaded', False):
+        return
+    F._field_index_loaded = True
+
+    def walk(o):
+        if isinstance(o, dict):
+            if 'f' in o and 'n' in o and 'adt' in o and o['adt'] and not str(o['n']).isdigit():
+                FIELD_INDEX[(str(o['adt']).split('::')[-1], o['n'])] = int(o['f'])
+            for v in o.values():
+                walk(v)
+        elif isinstance(o, list):
+            for v in o:
+                walk(v)
+    walk(F.raw['bodies'])
 
 
 def normalize(F, t, depth=4):
@@ -482,6 +504,7 @@ def normalize(F, t, depth=4):
     forwarders), so that outcomes are compared at the level of what is finally constructed"""
     if not isinstance(t, tuple) or not t or depth <= 0:
         return t
+    _load_field_index(F)
     if t[0] == 'call':
         args = tuple(normalize(F, a, depth) for a in t[2])
         g = F.fns.get(t[1])
